@@ -54,6 +54,7 @@ let () =
       let t1 = composite f lo hi 64 and t2 = composite f lo hi 128 in
       let conclusive = Float.abs (t1 -. t2) <= 1e-10 *. Float.abs t2 +. 1e-300 in
       if not conclusive then incr ninc;
-      Printf.printf "R %s %d %d %d %d closed=%d tailfired=%d taillast=%d true=%h v=%h v_notail=%h v_noscreen=%h v_noscreen_notail=%h v_quad=%h x=%h y=%h ok=%b\n"
-        r.id k l1 l2 nraw (geti r "closed") (geti r "tailfired") (geti r "taillast") t2 v.(0) v.(1) v.(2) v.(3) v.(4) (a *. ca) (b *. cb) conclusive);
+      Printf.printf "R %s %d %d %d %d closed=%d tailfired=%d taillast=%d true=%h v=%h v_notail=%h v_noscreen=%h v_noscreen_notail=%h v_quad=%h v_defer2=%h v_defer4=%h x=%h y=%h ok=%b\n"
+        r.id k l1 l2 nraw (geti r "closed") (geti r "tailfired") (geti r "taillast") t2 v.(0) v.(1) v.(2) v.(3) v.(4)
+        (if Array.length v > 5 then v.(5) else v.(3)) (if Array.length v > 6 then v.(6) else v.(3)) (a *. ca) (b *. cb) conclusive);
   Printf.printf "SUMMARY cases=%d oracle_inconclusive=%d\n" !ncase !ninc
